@@ -401,7 +401,19 @@ func (m *tokenBucketWrapper) SetLimit(acquireResult *AcquireResult) bool {
 			klog.V(2).Infof("[global tokenBucket] cluster=%q resize flowcontrol=%s qps=%v requestID=%v for error: %v",
 				m.fcc.cluster, m.fcc.name, lastQPS, acquireResult.requestTime, result.Error)
 
-			m.FlowControl.Resize(uint32(lastQPS), uint32(lastQPS))
+			// the measured rate includes bursts and can lie above the configured global rate: the
+			// fallback bucket stays within the global rate and burst
+			lastBurst := lastQPS
+			if m.qps > 0 && lastQPS > float64(m.qps) {
+				lastQPS = float64(m.qps)
+			}
+			if m.burst > 0 && lastBurst > float64(m.burst) {
+				lastBurst = float64(m.burst)
+			}
+			if lastBurst > lastQPS {
+				lastBurst = lastQPS
+			}
+			m.FlowControl.Resize(uint32(lastQPS), uint32(lastBurst))
 			atomic.StoreUint32(&m.serverUnavailable, 1)
 		}
 		m.lock.Unlock()
